@@ -14,7 +14,9 @@ type CHError struct {
 	Msg   string
 }
 
-func (e *CHError) Error() string { return fmt.Sprintf("code: %d, message: %s (%s)", e.Code, e.Msg, e.Name) }
+func (e *CHError) Error() string {
+	return fmt.Sprintf("code: %d, message: %s (%s)", e.Code, e.Msg, e.Name)
+}
 
 func chErr(code int, name, table, format string, a ...any) *CHError {
 	return &CHError{Code: code, Name: name, Table: table, Msg: fmt.Sprintf(format, a...)}
